@@ -415,6 +415,34 @@ def run_oracle(prop, bins, seed, tier, hint=None):
     return found
 
 
+def model_search(prop, bins, modelrun):
+    """model-side search (Model/Search.v, extracted): the first hand class on which the regenerated tables disagree
+    with the rules-of-poker ranking, as a concrete hand; confirmed by replaying it on the implementation"""
+    if prop not in ("C01", "C02", "C06") or not modelrun or not bins:
+        return []
+    try:
+        r = subprocess.run(["bash", "-c", "ulimit -s unlimited; exec \"$@\"", "x", modelrun, "--find"],
+                           stdout=subprocess.PIPE, stderr=subprocess.PIPE, text=True, timeout=600)
+    except subprocess.TimeoutExpired:
+        return []
+    out = []
+    for line in r.stdout.splitlines():
+        m = re.match(r"FOUND chk=(\d) expected=(\d+) actual=(\S+) case=(.*)", line)
+        if not m:
+            continue
+        case, expected = m.group(4), m.group(2)
+        prof = "chk" if m.group(1) == "1" and "chk" in bins else "release"
+        rr = subprocess.run([bins[prof], "run"], input=case + "\n", stdout=subprocess.PIPE, text=True)
+        impl = rr.stdout.strip().split()
+        if impl and any(x != expected for x in impl):
+            out.append({"case": case, "profile": prof, "what": "model-side search: the regenerated tables give this hand class "
+                        "the value %s, the rules of poker give %s; the implementation returns (hand_rank_value, hand_rank, "
+                        "value_and_hand, validated x2, evaluate::five_cards) = %s" % (m.group(3), expected, " ".join(impl)),
+                        "expected": expected, "actual": " ".join(impl)})
+            break
+    return out
+
+
 def load_known():
     p = os.path.join(ROOT, "known_findings.json")
     if not os.path.exists(p):
@@ -528,6 +556,11 @@ def main(argv):
         found = [{"case": m["case"], "profile": m["profile"], "family": m["family"],
                   "what": "implementation output differs from the output of the model, which the property's theorems pin down on this input",
                   "expected": m["model"], "actual": m["implementation"]} for m in mismatches if m.get("pinned")]
+        if not found and any(st == "proof" for st, _ in broken):
+            try:
+                found += model_search(prop, bins, build_model())
+            except Broken:
+                pass
         if len(found) < 3 and bins:
             found += run_oracle(prop, bins, seed, tier)
         # drop failing inputs that are listed known findings
